@@ -41,7 +41,7 @@ Proof. exact prefix_from_length. Qed.
 Print Assumptions C09_prefix_count.
 
 (* The whole round trip, PROVED on the fragment of Spec/Fragment.v (trees of any size and depth built from
-   one-line plain paragraphs, fenced code blocks, block quotes and single-item lists): parsing the spelled
+   plain paragraphs of one or more lines, ATX headings, fenced code blocks, block quotes and single-item lists): parsing the spelled
    text with the Markdown renderer's token sets (Document(lines), with the fuel Document really gives) and
    rendering the tree without a line limit writes back exactly the text - so the output has the same
    meaning, is a fixed point, and the normal form is reproduced exactly.  rt_ok asks that a fenced block is
@@ -57,8 +57,8 @@ Print Assumptions C09_fragment_round_trip.
 
 Theorem C09_fragment_round_trip_hypotheses :
   let fence := FFence 96 3 [SLine 2 120 $" = 1"; SBlank; SLine 0 35 $" not a heading"] in
-  let t1 := FItem (MBullet 45) 2 [FPara 97 $"b"; FQuote [FPara 99 $"d"; FItem (MOrdered $"12" 41) 1 [FPara 101 []; fence]; FPara 103 []]; FPara 102 []] in
-  let t2 := FQuote [FQuote [FPara 97 []]; fence; FPara 98 []; t1] in
+  let t1 := FItem (MBullet 45) 2 [FPara 97 $"b" []; FQuote [FPara 99 $"d" []; FItem (MOrdered $"12" 41) 1 [FPara 101 [] []; fence]; FPara 103 [] []]; FPara 102 [] []] in
+  let t2 := FQuote [FQuote [FPara 97 [] []]; fence; FPara 98 [] []; t1] in
   wf_b t2 = true /\ rt_ok t2 = true.
 Proof. exact round_trip_instance. Qed.
 Print Assumptions C09_fragment_round_trip_hypotheses.
